@@ -396,6 +396,11 @@ def scenarios(tier="quick"):
     s, _ = _pre(); s.put(Hh, "line1\n"); s.start(); s.write(7, Hh); s.timeout(); s.append(Hh, "second line\n"); s.tick(1); s.write(7, Hh)
     add("drain_history_offset", s, ["timeout"])
 
+    # the remembered position goes from 19 to 25: same number of digits, larger first digit (a rewrite in place
+    # would pass through "29")
+    s, _ = _pre(); s.put(Hh, "0123456789abcdefgh\n"); s.start(); s.write(7, Hh); s.timeout(); s.append(Hh, "ijklm\n"); s.tick(1); s.write(7, Hh)
+    add("drain_history_19_25", s, ["timeout"])
+
     s, _ = _pre(); s.put(P1, "int main;"); s.put(P2, "readme"); s.start(); s.exec(7, X + "/vim"); s.write(7, P1); s.write(7, P2)
     add("drain_project", s, ["timeout"])
 
@@ -457,6 +462,23 @@ def gen_burst_case(rng, deb=None):
     s.exec(3, X + "/vim")
     files = [WATCH + "/inc/a.txt", WATCH + "/inc/b", WATCH + "/d/c.tar.gz", WATCH + "/n", WATCH + "/hist.log"]
     n = 0
+    if rng.random() < 0.2:
+        # the store is unusable for a while (a stray regular file where its root belongs): the pass must report the
+        # failure and keep the item; after repair and restart exactly one version is owed
+        f = rng.choice(files[:4])
+        s.put(R + "/k/store", "stray")
+        s.put(f, "content 0")
+        s.write(3, f)
+        s.tick(deb + 1)
+        s.dump()
+        s.timeout()
+        s.dump()
+        s.rm(R + "/k/store")
+        s.restart()
+        s.exec(3, X + "/vim")
+        s.dump()
+        s.timeout()
+        s.dump()
     for _ in range(rng.randint(6, 30)):
         r = rng.random()
         if r < 0.5:
@@ -488,15 +510,18 @@ def gen_burst_case(rng, deb=None):
 def gen_collision_case(rng):
     """C04: many versions inside one timestamp, pre-existing store content, restarts"""
     s = Script()
-    setup_world(s, base_cfg(deb=0))
+    # version patterns as an administrator writes them: plain, with dots (dates), dot-led
+    vpat = rng.choice(["v%s", "v%s", "v%s", "r.%s", "%s.d", ".%s"])
+    setup_world(s, base_cfg(deb=0, vpat=vpat))
+    ver = vpat.replace("%s", str(CLOCK0))
     f = rng.choice([WATCH + "/inc/a.txt", WATCH + "/inc/b", WATCH + "/inc/x.tar.gz", WATCH + "/proj/m.c"])
     rel = f[len(WATCH) + 1:]
     ext = {"a.txt": ".txt", "b": "", "x.tar.gz": ".tar.gz", "m.c": ".c"}[rel.rsplit("/", 1)[1]]
     # pre-seed the store with names the daemon will want
     for k in rng.sample(range(0, 6), rng.randint(0, 4)):
-        s.put("%s/k/store/%s/v%d%s%s" % (R, rel, CLOCK0, "-%d" % k if k else "", ext), "old %d" % k)
+        s.put("%s/k/store/%s/%s%s%s" % (R, rel, ver, "-%d" % k if k else "", ext), "old %d" % k)
     if rng.random() < 0.3:
-        s.mkdirp("%s/k/store/%s/v%d-%d%s" % (R, rel, CLOCK0, rng.randint(1, 3), ext))   # a directory takes a name
+        s.mkdirp("%s/k/store/%s/%s-%d%s" % (R, rel, ver, rng.randint(1, 3), ext))   # a directory takes a name
     s.start()
     s.exec(3, X + "/vim")
     s.dump()
@@ -522,7 +547,7 @@ def gen_collision_case(rng):
             s.restart()
         if rng.random() < 0.1:
             s.tick(1)
-    return s.text(), {}
+    return s.text(), {"vpat": vpat, "ext": ext}
 
 
 def gen_copy_case(rng):
@@ -628,6 +653,14 @@ def gen_project_case(rng):
         elif r < 0.6 and f in exists:
             s.rm(f)
             exists.discard(f)
+            # sometimes the whole sub-directory goes with its last file
+            if rng.random() < 0.5:
+                d = f.rsplit("/", 1)[0]
+                while d not in (WATCH + "/proj", WATCH + "/pp/p1", WATCH + "/pp/p2", WATCH + "/pp", WATCH + "/inc", WATCH):
+                    if any(e.startswith(d + "/") for e in exists):
+                        break
+                    s.add("rmdir %s" % hexs(d))
+                    d = d.rsplit("/", 1)[0]
         elif r < 0.72:
             s.tick(rng.choice([0, 1, 2, 3]))
         elif r < 0.93:
@@ -665,7 +698,14 @@ def gen_journal_case(rng):
             s.write(rng.choice([3, 4]), f)
         elif r < 0.7:
             s.tick(1)
+        elif r < 0.78:
+            # hot reload that keeps the journal where it is but changes how its lines are stamped (and the labels)
+            import copy as _copy
+            cfg = _copy.deepcopy(cfg)
+            cfg.jpat = rng.choice([p for p in ["", "%s", "x", "t%s-"] if p != cfg.jpat])
+            s.config(cfg)
+            s.write(rng.choice([3, 4]), CFG_PATH)
         else:
             s.timeout()
         s.dump()
-    return s.text(), {"labels_all": False, "journal_counts": False}
+    return s.text(), {"labels_all": False, "journal_counts": False, "stamps": True}
